@@ -346,10 +346,18 @@ def check_san_writer(ctx, f, L):
     name = U + "display_san_move"
     b = f.need(name)
     where = loc(b)
-    noin = lambda n_: False if ("generate_moves" in n_ or n_.endswith("::play") or n_.endswith("::try_play")) else None
+    # loop-free private helpers only this function uses (the disambiguation moved into a function of its own) are read
+    # as part of it
+    from .names import names as role_names
+    try:
+        own = role_names(f).exclusive_helpers(name)
+    except Exception:
+        own = set()
+    noin = lambda n_: False if ("generate_moves" in n_ or n_.endswith("::play") or n_.endswith("::try_play")) else (True if n_ in own else None)
     ps = sym.SymExec(f, b, inline=noin, max_paths=200000).run()
     ctx.saw("%s: %d paths" % (b.key, len(ps)))
     MV = ("param", "mv")
+    here = lambda e_: e_.depth == 0 or e_.fn in own
     back_ok = rook_sq_ok = 0
     n = 0
     for p in ps:
@@ -404,7 +412,7 @@ def check_san_writer(ctx, f, L):
     dl = set()
     for p in ps:
         for e in p.events:
-            if e.kind == "call" and e.depth == 0 and e.name == B + "::generate_moves_for" and e.args[2][0] == "closure":
+            if e.kind == "call" and here(e) and e.name == B + "::generate_moves_for" and e.args[2][0] == "closure":
                 dl.add(e.args[2][1])
     dl = sorted(dl)
     if ctx.check(len(dl) == 1, "san-write:disambiguation-listener", "no single disambiguation listener found", where):
@@ -421,7 +429,7 @@ def check_san_writer(ctx, f, L):
                   sample={"scan": "mvs.from != mv.from && mvs.to.has(mv.to)"})
     for p in ps:
         for e in p.events:
-            if e.kind == "call" and e.depth == 0 and e.name == B + "::generate_moves_for":
+            if e.kind == "call" and here(e) and e.name == B + "::generate_moves_for":
                 mask = L.lift(e.args[1])
                 atoms = []
                 setalg.collect_atoms(mask, atoms)
